@@ -589,6 +589,18 @@ def r01_5(ctx):
         loops = [l for l in ast.walk(f.node) if isinstance(l, ast.For)]
         ok = ok and len(loops) == 1 and not any(isinstance(b, (ast.Break, ast.Return)) for l in loops for b in ast.walk(l))
         ok = ok and res.text(loops[0].iter) == f"{sc}.nodes"
+    if not ok:
+        # the same join written as one expression: max((expr_value(n.prompt[1]) for n in sc.nodes if n.prompt), default=0)
+        for r_ in [n for n in ast.walk(f.node) if isinstance(n, ast.Return) and isinstance(n.value, ast.Call) and ast.unparse(n.value.func) == "max"]:
+            c = r_.value
+            if len(c.args) == 1 and isinstance(c.args[0], (ast.GeneratorExp, ast.ListComp)) and len(c.args[0].generators) == 1:
+                g = c.args[0].generators[0]
+                v = g.target.id if isinstance(g.target, ast.Name) else "?"
+                dflt = [k for k in c.keywords if k.arg == "default"]
+                if ast.unparse(c.args[0].elt) == f"expr_value({v}.prompt[1])" and res.text(g.iter) == f"{sc}.nodes" \
+                        and [ast.unparse(i) for i in g.ifs] == [f"{v}.prompt"] and dflt and ast.unparse(dflt[0].value) == "0":
+                    ok = True
+                    upd = [r_]
     if ok:
         ctx.ok(construct, f.loc(upd[0]))
     else:
